@@ -17,6 +17,7 @@ THEOREMS = [
     "TornadoModel.C25.attrs_exact",
     "TornadoModel.C25.last_wins",
     "TornadoModel.C25.jar_names_unique",
+    "TornadoModel.C25.ending_keeps_cookies",
 ]
 TRUSTED = [
     "CPython 3.12 http.cookies (_LegalChars, _Translator, _quote, Morsel.set/__setitem__/OutputString, SimpleCookie.__setitem__) as written in C25/Model.lean — diffed on every run",
@@ -27,15 +28,21 @@ ASSUMPTIONS = [
     "name/value are str or bytes; domain/path/samesite are str or None; max_age is an int; httponly/secure are bools; expires is a number (or expires_days)",
     "deprecated keyword arguments carry str values, or bools for HttpOnly/Secure; every key is spelled so that it does not bind to a named parameter",
     "the emitted expires text is whatever httputil.format_timestamp returned during the call (recorded by the harness)",
+    "a handler is a sequence of cookie calls and RequestHandler.clear() calls followed by one ending: finish(), finish(chunk), return (auto-finish), "
+    "raise Finish, send_error(status), raise HTTPError(status), a MissingArgumentError from get_argument, another uncaught exception, or redirect(url); "
+    "statuses for send_error/HTTPError come from {400,401,403,404,405,410,429,500,503,599,304,200} (204 and 1xx make write_error's body trip finish()'s "
+    "assertion: no response is produced at all, outside the modelled domain); no cookie call after the headers were flushed",
     "a browser echoes the name=value part of Set-Cookie verbatim in its Cookie header (that is what is fed to parse_cookie)",
 ]
-RULE = ("handlers making 1-5 set_cookie/clear_cookie/set_signed_cookie calls over names/values/attributes with separators, quotes, "
+RULE = ("handlers making 1-5 set_cookie/clear_cookie/set_signed_cookie calls (optionally interleaved with clear()) and ending in finish / "
+        "send_error / raise HTTPError / uncaught exception / Finish / redirect / auto-finish, over names/values/attributes with separators, quotes, "
         "backslashes, controls, DEL, non-ASCII, non-latin-1, plus every single byte 0-255 (and 8 wide code points) at start/middle/end "
-        "of every cookie field; non-trivial = at least one Set-Cookie line was emitted and read back; distinct by canonical JSON")
+        "of every cookie field, plus every ending x 8 cookie programs x every placement of clear(); non-trivial = at least one Set-Cookie line was emitted and read back; distinct by canonical JSON")
 EXHAUSTIVE = {"quick": True, "thorough": True}
 CLAUSES = {
     "either that call raises or the response is sent with a Set-Cookie header that parse_cookie reads back as exactly that name and value":
-        "set_then_parse + unquote_quote",
+        "set_then_parse + unquote_quote; ending_keeps_cookies (the response carries the jar's cookies whichever way the handler ends - "
+        "finish, send_error, raise HTTPError, uncaught exception, redirect - and across clear())",
     "carrying exactly the requested attributes, with no extra attributes or cookies":
         "attrs_exact (for every Morsel whose text attributes hold no ';') + jar_names_unique; "
         "tie only: that every accepted call builds such a Morsel (accepted_morsel_clean_goal, checked on every emitted cookie)",
@@ -128,14 +135,63 @@ def _rcookie(rng, names):
     return c
 
 
+def ending_programs():
+    """cookie programs whose calls all return: every via, same-name overwrite, two names, a flush-time reject"""
+    sc = lambda c: ["setCookie", c]
+    flash = cookie(S("flash"), S("denied; now"), httponly=True, samesite="Lax", max_age=60)
+    yield "set", [sc(cookie(S("sid"), S("v1")))]
+    yield "clear", [sc(cookie(S("session"), S(""), via="clear"))]
+    yield "signed", [sc(cookie(S("uid"), S("42"), via="signed", expires_days=30))]
+    yield "clear+set", [sc(cookie(S("session"), S(""), via="clear", domain="ex.org")), sc(flash)]
+    yield "overwrite", [sc(cookie(S("sid"), S("old"), secure=True)), sc(cookie(S("sid"), S("new"), path="/p"))]
+    yield "set+clear-same", [sc(cookie(S("sid"), S("v1"))), sc(cookie(S("sid"), S(""), via="clear"))]
+    yield "expires", [sc(cookie(S("a"), S("1"), expires=86400 * 365)), sc(cookie(S("b"), S("2"), expires_days=1, kwargs=[["Comment", S("c;d")]]))]
+    yield "wide-value", [sc(cookie(S("ok"), S("1"))), sc(cookie(S("w"), S("\u20ac")))]     # the cookie loop of flush raises
+
+
+def ending_cases():
+    """every ending x every program x every placement of an application-level clear()"""
+    for end in all_endings():
+        for tag, prog in ending_programs():
+            places = [None, 0, len(prog)] + ([1] if len(prog) > 1 else [])
+            for at in places:
+                ops = list(prog)
+                if at is not None:
+                    ops.insert(at, ["clear"])
+                yield {"ops": ops, "end": end, "field": "ending", "prog": tag, "clear_at": at}
+
+
+def _rend(rng):
+    k = rng.random()
+    if k < 0.35:
+        return ["finish"]
+    kind = rng.choice(END_KINDS)
+    if kind in ("send_error", "raise_http"):
+        return [kind, rng.choice(STATUSES)]
+    if kind == "raise":
+        return [kind, rng.choice(EXCS)]
+    if kind == "redirect":
+        return [kind, rng.choice(URLS), rng.random() < 0.4]
+    return [kind]
+
+
+def random_case(rng):
+    names = rng.sample(NAMES, rng.randint(1, 3))
+    ops = [["setCookie", _rcookie(rng, names)] for _ in range(rng.randint(1, 5))]
+    if rng.random() < 0.2:
+        for _ in range(rng.randint(1, 2)):
+            ops.insert(rng.randint(0, len(ops)), ["clear"])
+    return {"ops": ops, "end": _rend(rng), "field": "random"}
+
+
 def gen_cases(rng, tier):
     c07.warm()
     if tier in ("quick", "thorough"):
         yield from enum_cases()
+        yield from ending_cases()
     n = {"quick": 4000, "thorough": 80000, "search": 5000}[tier]
     for _ in range(n):
-        names = rng.sample(NAMES, rng.randint(1, 3))
-        yield {"ops": [["setCookie", _rcookie(rng, names)] for _ in range(rng.randint(1, 5))], "field": "random"}
+        yield random_case(rng)
     # the quoting functions on their own: model vs http.cookies._quote / httputil._unquote_cookie / parse_cookie
     m = {"quick": 3000, "thorough": 40000, "search": 0}[tier]
     qa = ["\\", "\"", "0", "1", "3", "4", "7", "8", "a", ";", "=", " ", "\n", "\t", ",", "\xe9", "\xff", "\u0100", "\x00", "\x7f",
@@ -149,6 +205,135 @@ def gen_cases(rng, tier):
 
 # ------------------------------------------------------------------------------------------------ implementation
 
+STATUSES = [400, 401, 403, 404, 405, 410, 429, 500, 503, 599, 304, 200]     # 599: no standard reason ("Unknown"); 304: no error page
+EXCS = ["ValueError", "KeyError", "ZeroDivisionError", "RuntimeError"]
+URLS = ["/next", "http://e.org/login?x=1"]
+END_KINDS = ["finish", "finish_chunk", "auto", "raise_finish", "send_error", "raise_http", "missing_arg", "raise", "redirect"]
+
+
+def all_endings():
+    for k in ("finish", "finish_chunk", "auto", "raise_finish", "missing_arg"):
+        yield [k]
+    for st in STATUSES:
+        yield ["send_error", st]
+        yield ["raise_http", st]
+    for e in EXCS:
+        yield ["raise", e]
+    for u in URLS:
+        for perm in (False, True):
+            yield ["redirect", u, perm]
+
+
+def case_end(case):
+    return case.get("end") or ["finish"]
+
+
+_ENV = {}
+
+
+def _env():
+    """per-process handler/application of our own on top of C07's virtual loop, fake transport and date recorder"""
+    import os
+    if _ENV and _ENV["pid"] == os.getpid():
+        return _ENV
+    _ENV.clear()
+    base = c07._env()
+    import tornado.web, tornado.httpserver, tornado.httputil
+    rec = tornado.httputil.format_timestamp._verif_rec
+
+    class H(tornado.web.RequestHandler):
+        def set_default_headers(self):
+            self.set_header("Server", c07.SERVER)
+            self.set_header("Date", c07.DATE)
+
+        def create_signed_value(self, name, value, version=None):
+            r = super().create_signed_value(name, value, version=version)
+            self.application.result["signed"][-1].append(r.hex())
+            return r
+
+        def finish(self, chunk=None):
+            # observation only: the outcome of the first finish() of the response
+            res = self.application.result
+            first = "finish" not in res
+            if first:
+                res["finish"] = "pending"
+            try:
+                r = super().finish(chunk)
+            except Exception as e:
+                if first:
+                    res["finish"] = c07._exc(e)
+                raise
+            if first:
+                res["finish"] = "ok"
+            return r
+
+        def post(self):
+            res = self.application.result
+            for op in self.application.script:
+                rec["dates"] = []
+                res["signed"].append([])
+                if op[0] == "clear":
+                    self.clear()
+                    res["outs"].append("ok")
+                    res["dates"].append([])
+                    continue
+                rec["on"] = True
+                try:
+                    c07._call(self, op)
+                    res["outs"].append("ok")
+                except Exception as e:
+                    res["outs"].append(c07._exc(e))
+                finally:
+                    rec["on"] = False
+                res["dates"].append(rec["dates"])
+            end = self.application.end
+            k = end[0]
+            if k == "finish":
+                self.finish()
+            elif k == "finish_chunk":
+                self.finish("body")
+            elif k == "auto":
+                return
+            elif k == "raise_finish":
+                raise tornado.web.Finish()
+            elif k == "send_error":
+                self.send_error(end[1])
+            elif k == "raise_http":
+                raise tornado.web.HTTPError(end[1])
+            elif k == "missing_arg":
+                self.get_argument("absent")
+            elif k == "raise":
+                raise {"ValueError": ValueError, "KeyError": KeyError, "ZeroDivisionError": ZeroDivisionError,
+                       "RuntimeError": RuntimeError}[end[1]]("boom")
+            elif k == "redirect":
+                self.redirect(end[1], permanent=end[2])
+            else:
+                raise AssertionError(end)
+
+    app = tornado.web.Application([("/", H)], cookie_secret="k" * 32)
+    srv = tornado.httpserver.HTTPServer(app)
+    _ENV.update(pid=os.getpid(), lp=base["lp"], app=app, srv=srv, FakeStream=base["FakeStream"])
+    return _ENV
+
+
+def serve(script, end):
+    """one request through the real server: cookie calls / clear(), then the ending; everything the connection wrote"""
+    env = _env()
+    lp, app = env["lp"], env["app"]
+    app.script, app.end = script, end
+    app.result = res = {"outs": [], "dates": [], "signed": []}
+    s = env["FakeStream"](lp.io_loop)
+    env["srv"].handle_stream(s, ("1.2.3.4", 5))
+    lp.drain()
+    s.feed(b"POST / HTTP/1.1\r\nHost: x\r\nContent-Length: 0\r\n\r\n")
+    lp.drain()
+    res["wire"] = bytes(s.written).hex()
+    s.close()
+    lp.drain()
+    res.setdefault("finish", "not-called")
+    return res
+
+
 def run_impl(case):
     if "text" in case:
         import http.cookies
@@ -157,11 +342,14 @@ def run_impl(case):
         return {"quote": http.cookies._quote(t), "unquote": httputil._unquote_cookie(t),
                 "parse": [list(p) for p in httputil.parse_cookie(t).items()]}
     from tornado import httputil
-    r = c07.serve(case["ops"])
+    r = serve(case["ops"], case_end(case))
     wire = bytes.fromhex(r["wire"])
-    lines = wire.split(b"\r\n") if wire else []
+    head = wire.split(b"\r\n\r\n", 1)[0]
+    lines = head.split(b"\r\n") if wire else []
+    m = re.match(rb"HTTP/1\.1 (\d{3}) ", lines[0]) if lines else None
     sc = [l[len(b"Set-Cookie: "):].decode("latin1") for l in lines if l.startswith(b"Set-Cookie: ")]
-    out = {"outs": r["outs"], "finish": r["finish"], "set_cookie": sc, "dates": r["dates"], "signed": r["signed"], "readback": []}
+    out = {"outs": r["outs"], "finish": r["finish"], "status": int(m.group(1)) if m else None, "set_cookie": sc,
+           "dates": r["dates"], "signed": r["signed"], "readback": []}
     for s in sc:
         first = s.split(";", 1)[0]
         try:
@@ -178,9 +366,24 @@ def model_requests(case, impl):
         return []
     if "text" in case:
         return [line(ID, op, case["text"]) for op in ("quote", "unquote", "parse")]
-    calls = [c07.cookie_wire(op[1], impl["dates"][i] if i < len(impl["dates"]) else [],
-                             impl["signed"][i] if i < len(impl["signed"]) else []) for i, op in enumerate(case["ops"])]
-    return [line(ID, "run", calls)]
+    ops = []
+    for i, op in enumerate(case["ops"]):
+        if op[0] == "clear":
+            ops.append(atom("clear"))
+        else:
+            ops.append([atom("cookie"), c07.cookie_wire(op[1], impl["dates"][i] if i < len(impl["dates"]) else [],
+                                                        impl["signed"][i] if i < len(impl["signed"]) else [])])
+    return [line(ID, "serve", [ops, end_wire(case_end(case))])]
+
+
+def end_wire(end):
+    k = end[0]
+    if k in ("send_error", "raise_http"):
+        return [atom({"send_error": "sendError", "raise_http": "raiseHTTP"}[k]), end[1]]
+    if k == "redirect":
+        return [atom("redirect"), atom(bool(end[2]))]
+    return [atom({"finish": "finish", "finish_chunk": "finishChunk", "auto": "autoFinish", "raise_finish": "raiseFinish",
+                  "missing_arg": "missingArg", "raise": "raiseOther"}[k]), None]
 
 
 def _vals(reply):
@@ -195,14 +398,15 @@ def model_result(case, replies):
     v = _vals(replies[0])
     outs = [str(x) for x in v[0]]
     if isinstance(v[1], Atom):
-        return {"outs": outs, "finish": str(v[1]), "set_cookie": []}
-    return {"outs": outs, "finish": "ok", "set_cookie": list(v[1])}
+        return {"outs": outs, "finish": str(v[1]), "status": None, "set_cookie": []}
+    return {"outs": outs, "finish": "ok", "status": v[2], "set_cookie": list(v[1])}
 
 
 def impl_view(case, impl):
     if "text" in case:
         return impl
-    return {"outs": impl["outs"], "finish": impl["finish"], "set_cookie": impl["set_cookie"]}
+    return {"outs": impl["outs"], "finish": impl["finish"], "status": impl["status"] if impl["finish"] == "ok" else None,
+            "set_cookie": impl["set_cookie"]}
 
 
 # ------------------------------------------------------------------------------------------------ oracle
@@ -256,8 +460,9 @@ def spec_violation(case, impl, replies):
     if "text" in case:
         return None
     from tornado import httputil
-    if impl["finish"] != "ok":
+    if impl["finish"] not in ("ok", "not-called"):
         return None if not impl["set_cookie"] else "emitted-after-reject: finish raised %s but Set-Cookie lines were written" % impl["finish"]
+    # finish returned - or was never reached (no response at all): then every cookie whose call returned is owed
     # what each emitted line says, by cookie name
     seen = {}
     for s, rep, back in zip(impl["set_cookie"], replies, impl["readback"]):
@@ -272,6 +477,8 @@ def spec_violation(case, impl, replies):
     last = {}
     attempted = set()
     for i, (op, out) in enumerate(zip(case["ops"], impl["outs"])):
+        if op[0] != "setCookie":
+            continue            # clear() resets headers and body; the property's demand on earlier cookies stands
         c = op[1]
         try:
             name, value, want = requested(c, impl["dates"][i], impl["signed"][i])
@@ -283,7 +490,8 @@ def spec_violation(case, impl, replies):
         if out != "ok":
             continue            # the last call for this name raised: the property makes no demand
         if name not in seen:
-            return "cookie-missing: %r was set (call returned) but no Set-Cookie line names it" % name
+            return "cookie-missing: %r was set (call returned) but no Set-Cookie line names it (ending %r, status %r, finish %s)" % (
+                name, case_end(case), impl["status"], impl["finish"])
         s, first, attrs, back = seen[name]
         if back != [[name, value]]:
             return "readback-differs: parse_cookie(%r) = %r, set %r=%r" % (first, back, name, value)
@@ -319,7 +527,13 @@ def stats(case, impl):
         return ["field:text"]
     out = ["field:" + case.get("field", "?"), "finish:" + impl["finish"], "emitted:%d" % len(impl["set_cookie"])]
     for op, o in zip(case["ops"], impl["outs"]):
-        out.append("call:%s:%s" % (op[1]["via"], o))
+        out.append("call:%s:%s" % (op[1]["via"] if op[0] == "setCookie" else op[0], o))
+    end = case_end(case)
+    out.append("end:%s:%s" % (end[0], "cookies" if impl["set_cookie"] else "none"))
+    if end[0] in ("send_error", "raise_http"):
+        out.append("end-status:%d" % end[1])
+    if any(op[0] == "clear" for op in case["ops"]):
+        out.append("clear():%s" % ("cookies" if impl["set_cookie"] else "none"))
     if "cp" in case:
         out.append("class:%s:%s" % (c07._cls(case["cp"]), "sent" if impl["set_cookie"] else "rejected"))
     return out
@@ -330,6 +544,8 @@ def signature(case, impl, why):
     f = case.get("field", "random")
     if f in ("random", "text"):
         return "%s/%s" % (f, cat)
+    if f == "ending":
+        return "ending/%s/%s" % (case_end(case)[0], cat)
     return "%s/%s/%s" % (f, c07._cls(case["cp"]), cat)
 
 
@@ -339,8 +555,12 @@ def shrink(case):
         for i in range(len(t)):
             yield {**case, "text": t[:i] + t[i + 1:]}
         return
+    if case_end(case)[0] not in ("finish", "send_error"):
+        yield {**case, "end": ["send_error", 500]}
     yield from c07.shrink(case)
     for i, op in enumerate(case["ops"]):
+        if op[0] != "setCookie":
+            continue
         c = op[1]
         for k in ("name", "value"):
             if c[k][0] == "s" and len(c[k][1]) > 1:
